@@ -1,10 +1,10 @@
 """Rule instances for C14 (hooked timed waits) and the wait path of C15."""
 from analysis.facts import norm
 from analysis.cfg import Cfg
-from analysis.flow import DefUse, backward, find_calls, callee_is, callee_ends, op_local, op_const, bool_branch, variant_arms, field_chain
+from analysis.flow import ReachingDefs, DefUse, backward, find_calls, callee_is, callee_ends, op_local, op_const, bool_branch, variant_arms, field_chain
 from analysis.units import Units, NAMES, S, MS, US, NS
 from analysis.table import describe_val
-from rules.common import need
+from rules.common import need, unit
 
 LOOP = "net::event_loop::EventLoop"
 LOOPS = "net::EventLoops"
@@ -53,7 +53,7 @@ def validate_rule(run, f, rid):
     for fn in ("<syscall::unix::nanosleep::NioNanosleepSyscall as syscall::unix::nanosleep::NanosleepSyscall>::nanosleep",
                "<syscall::unix::select::NioSelectSyscall as syscall::unix::select::SelectSyscall>::select",
                "<syscall::unix::pthread_cond_timedwait::NioPthreadCondTimedwaitSyscall as syscall::unix::pthread_cond_timedwait::PthreadCondTimedwaitSyscall>::pthread_cond_timedwait"):
-        b = need(run, rid, f, fn)
+        b = unit(run, rid, f, fn)      # a conversion helper cut out of the wrapper is part of it
         if b is None:
             continue
         cfg = Cfg(b)
@@ -121,24 +121,40 @@ def probe_rule(run, f, rid):
         ok = len(inner) == 1 and cfg.in_cycle(inner[0][0])
         why = "inner select call"
         if ok:
-            # the timeout argument is `&raw mut o`
+            # the timeout argument is `&raw mut <probe timeval>`: a local of this function (never the caller's pointer)
             al = op_local(inner[0][1]["args"][6])
-            named = set()
-            for d in du.defs.get(al, []):
-                if d[2] == "assign" and d[3]["rhs"]["k"] in ("rawptr", "ref"):
-                    named.add(b.name_of(d[3]["rhs"]["p"]["l"]))
+            tgt = set()
+            from_param = False
+            l, n = al, 0
+            while l is not None and n < 8:
+                n += 1
+                if 1 <= l <= b.argc:
+                    from_param = True
+                    break
+                ds = du.defs.get(l, [])
+                if len(ds) != 1 or ds[0][2] != "assign":
+                    break
+                rv = ds[0][3]["rhs"]
+                if rv["k"] in ("rawptr", "ref") and not rv["p"]["proj"]:
+                    tgt.add(rv["p"]["l"])
+                    break
+                if rv["k"] in ("use", "cast") and rv["a"]["k"] in ("copy", "move") and not rv["a"]["p"]["proj"]:
+                    l = rv["a"]["p"]["l"]
+                else:
+                    break
             # every store into that local's tv_sec / tv_usec is the constant 0, and both are reset inside the loop
-            ol = [l for l in range(len(b.locals)) if b.name_of(l) == "o"]
             stores = []
             for blk in b.blocks:
-                for s in blk["stmts"]:
-                    if s["k"] == "assign" and ol and s["lhs"]["l"] == ol[0]:
-                        if s["lhs"]["proj"]:
-                            stores.append((blk["id"], op_const(s["rhs"].get("a")) if s["rhs"]["k"] == "use" else None))
-                        elif s["rhs"]["k"] == "agg":
-                            stores += [(blk["id"], op_const(x)) for x in s["rhs"]["ops"]]
-            ok = named == {"o"} and stores and all(v == 0 for (_b, v) in stores) and sum(1 for (bb, _v) in stores if cfg.in_cycle(bb)) >= 2
-            why = "timeout argument is `%s`, stores %s" % (sorted(named), stores)
+                for s_ in blk["stmts"]:
+                    if s_["k"] == "assign" and s_["lhs"]["l"] in tgt:
+                        if s_["lhs"]["proj"]:
+                            stores.append((blk["id"], op_const(s_["rhs"].get("a")) if s_["rhs"]["k"] == "use" else None))
+                        elif s_["rhs"]["k"] == "agg":
+                            stores += [(blk["id"], op_const(x)) for x in s_["rhs"]["ops"]]
+                        else:
+                            stores.append((blk["id"], None))
+            ok = len(tgt) == 1 and not from_param and stores and all(v == 0 for (_b, v) in stores) and sum(1 for (bb, _v) in stores if cfg.in_cycle(bb)) >= 2
+            why = "timeout argument points to %s, stores %s" % (sorted(b.name_of(l) for l in tgt) or "the caller's timeval", stores)
         if ok:
             run.ok(rid, "select/zero-timeout-probe", "inner.select(.., &mut {0,0}) with the probe timeval reset on every cycle")
         else:
@@ -157,20 +173,54 @@ def probe_rule(run, f, rid):
             if inner and inner[0] in blocks:
                 L = blocks
         ok = bool(we) and L is not None and we[0][0] in L
-        # the remaining time shrinks by the step just waited: some saturating_sub / Sub on `t` inside the loop reading `x`
-        dec = False
-        if L:
+        # the remaining time shrinks by the step just waited.  Roles, not names: the loop-carried variables the waited
+        # Duration is computed from are {remaining, step}; inside the loop `remaining` is reduced by `step` (a Sub or a
+        # saturating/checked_sub whose operands are those two), and by nothing else
+        dec, wrong = False, None
+        if L and ok:
+            defs_in = {}
+            for x in L:
+                for s_ in b.blocks[x]["stmts"]:
+                    if s_["k"] == "assign" and not s_["lhs"]["proj"]:
+                        defs_in.setdefault(s_["lhs"]["l"], 0)
+                t = b.blocks[x]["term"]
+                if t["k"] == "call" and not t["dest"]["proj"]:
+                    defs_in.setdefault(t["dest"]["l"], 0)
+            carried = {l for l in defs_in if any(d[0] not in L for d in du.defs.get(l, [])) and not b.name_of(l).startswith("_")}
+            dsl = backward(b, we[0][1]["args"][0], du, at=(we[0][0], "term"), through_calls="all")
+            D = dsl.locals & carried
+            rd_ = ReachingDefs(b, du)
+            def roots(op, at):
+                # the loop-carried variable an operand reads: through compiler temporaries and casts only (the variable
+                # itself depends on the others through the previous iteration, so a full slice would name them all)
+                n = 0
+                while op is not None and op["k"] in ("copy", "move") and not op["p"]["proj"] and n < 10:
+                    n += 1
+                    l = op["p"]["l"]
+                    if l in carried:
+                        return {l}
+                    ds = [d for d in rd_.reaching(l, at[0], at[1]) if d is not None]
+                    if len(ds) != 1 or ds[0][2] != "assign" or ds[0][3]["lhs"]["proj"] or ds[0][3]["rhs"]["k"] not in ("use", "cast"):
+                        return set()
+                    op, at = ds[0][3]["rhs"]["a"], (ds[0][0], ds[0][1])
+                return set()
             for x in L:
                 t = b.blocks[x]["term"]
-                if t["k"] == "call" and norm(t.get("callee") or "").endswith("::saturating_sub"):
-                    a = backward(b, t["args"][0], du, at=(x, "term"), through_calls="none").locals
-                    c = backward(b, t["args"][1], du, at=(x, "term"), through_calls="none").locals
-                    if any(b.name_of(l) == "t" for l in a) and any(b.name_of(l) == "x" for l in c):
-                        dec = True
-                for s in b.blocks[x]["stmts"]:
-                    if s["k"] == "assign" and s["rhs"]["k"] == "binop" and s["rhs"]["op"] in ("Sub", "SubWithOverflow"):
-                        if b.name_of(op_local(s["rhs"]["a"]) or -1) == "t" or any(b.name_of(l) == "t" for l in backward(b, s["rhs"]["a"], du, at=(x, 0), through_calls="none").locals):
+                cands = []
+                if t["k"] == "call" and norm(t.get("callee") or "").endswith(("::saturating_sub", "::checked_sub", "::wrapping_sub")) and len(t["args"]) == 2:
+                    cands.append((roots(t["args"][0], (x, "term")), roots(t["args"][1], (x, "term")), op_const(t["args"][1])))
+                for i, s_ in enumerate(b.blocks[x]["stmts"]):
+                    if s_["k"] == "assign" and s_["rhs"]["k"] == "binop" and s_["rhs"]["op"] in ("Sub", "SubWithOverflow", "SubUnchecked"):
+                        cands.append((roots(s_["rhs"]["a"], (x, i)), roots(s_["rhs"]["b"], (x, i)), op_const(s_["rhs"]["b"])))
+                for (ra, rb, cb_) in cands:
+                    if ra & D:
+                        if rb & D and not (rb & ra):
                             dec = True
+                        else:
+                            wrong = "the remaining timeout is reduced by something other than the step that was waited"
+            if len(D) < 2:
+                wrong = wrong or "the waited Duration is not min(remaining, step) of two loop-carried variables"
+        dec = dec and not wrong
         if ok and dec:
             run.ok(rid, nm + "/wait-and-count-down", "wait_event(min(t, x)) then t -= x inside the probe loop")
         else:
@@ -194,7 +244,7 @@ def probe_rule(run, f, rid):
 
 def deadline_rule(run, f, rid):
     run.rule(rid, "timed_wait_just returns only once its deadline has passed (or on error); wait_just performs at most one OS wait per call, so its caller can re-read the clock", floor=2, template="T2/T7")
-    b = need(run, rid, f, LOOP + "::timed_wait_just")
+    b = unit(run, rid, f, LOOP + "::timed_wait_just")      # a `next_step` closure / helper computing the remaining time is part of it
     if b is not None:
         cfg = Cfg(b)
         du = DefUse(b)
@@ -202,14 +252,15 @@ def deadline_rule(run, f, rid):
         why = "no `left_time == 0` test"
         for blk in b.blocks:
             for s in blk["stmts"]:
-                if s["k"] == "assign" and s["rhs"]["k"] == "binop" and s["rhs"]["op"] == "Eq" and (op_const(s["rhs"]["a"]) == 0 or op_const(s["rhs"]["b"]) == 0):
+                if s["k"] == "assign" and s["rhs"]["k"] == "binop" and s["rhs"]["op"] in ("Eq", "Ne") and (op_const(s["rhs"]["a"]) == 0 or op_const(s["rhs"]["b"]) == 0):
                     other = s["rhs"]["b"] if op_const(s["rhs"]["a"]) == 0 else s["rhs"]["a"]
                     sl = backward(b, other, du, at=(blk["id"], 0))
                     if any(norm(t.get("callee") or "") == "common::now" for (_x, t) in sl.calls):
                         br = bool_branch(b, cfg, du, s["lhs"]["l"], [blk["id"]])
                         if br:
+                            reached = br[0] if s["rhs"]["op"] == "Eq" else br[1]      # the edge on which `remaining == 0` holds
                             fr = [x for (x, t) in b.calls() if norm(t.get("callee") or "").endswith("FromResidual>::from_residual")]
-                            r = cfg.reachable({0}, avoid={br[0]} | set(fr))
+                            r = cfg.reachable({0}, avoid={reached} | set(fr))
                             ok = not (set(cfg.returns) & r)
                             why = "a return is reachable without passing the deadline-reached edge"
         if ok:
